@@ -48,7 +48,7 @@ class HMA(Indicator):
         )
 
     def _calculate_reading(self, index: int) -> float | dict | None:
-        if self.reading(f"{self.name}_WMA"):
+        if self.reading(f"{self.name}_WMA") is not None:
             raw_hma = (2 * self.reading(f"{self.name}_WMAh")) - self.reading(f"{self.name}_WMA")
             self.managed_indicators["raw_HMA"].set_reading(raw_hma)
             return self.reading(f"{self.name}_HMAs")
